@@ -4,15 +4,22 @@
    instant n s after the scenario start; the harness starts every scenario half a second out of phase
    with the ntex-io timer wheel, so a timer armed at second n for d seconds is found due by the wheel
    between the operations of second n + d and those of second n + d + 1:
-     for n = 0 .. H-1:  operations of second n;  the wheel fires what is due;  observe;  Tick.
+     for n = 0 .. H-1:  operations of second n;  the wheel ticks and fires what is due;  observe.
    observation: one field per second: finished, handlers pending, number of control messages, their
    codes, bytes received by the peer.  Definitions only. *)
 From MV Require Import Base.Prelude Base.Res Model.IoState Model.Timer Model.IoEnv.
 
-Definition wheel (e : env) : env :=
-  settle (fst (t_apply e (timer_step (e_cfg e) (e_t e) TimerFired))).
+Definition due (e : env) : bool :=
+  match timer (e_t e) with Some dl => dl <=? now (e_t e) | None => false end.
 
 Definition tick (e : env) : env := fst (t_apply e (timer_step (e_cfg e) (e_t e) Tick)).
+
+(* the wheel's tick: what is due fires (notify_timeout); the wheel has already counted the new second
+   when the woken dispatcher runs, so a timer re-armed while handling an expiry is due one wheel
+   second later than one armed by an operation of the same second *)
+Definition wheel (e : env) : env :=
+  if due e then settle (tick (fst (t_apply e (timer_step (e_cfg e) (e_t e) TimerFired))))
+  else tick e.
 
 Fixpoint ops_at (n : N) (e : env) (ops : list (list N)) : env :=
   match ops with
@@ -30,7 +37,7 @@ Fixpoint seconds (fuel : nat) (n : N) (e : env) (ops : list (list N)) : list (li
   | O => []
   | S k =>
     let e1 := wheel (ops_at n e ops) in
-    observe_rt e1 :: seconds k (n + 1) (tick e1) ops
+    observe_rt e1 :: seconds k (n + 1) e1 ops
   end.
 
 Definition run_timerrt (c : list (list N)) : list (list N) :=
